@@ -18,33 +18,36 @@
 EXTENDS PreparedProp, Json, IOUtils, TLC
 Rec == ndJsonDeserialize(IOEnv.TRACE)
 VARIABLES l,
-          ext, skipopt, ver, prep, salt,     \* server model; prep[n] = set of statements ("select","insert") prepared under OUR id
+          ext, skipopt, ver, lay, prep, salt,     \* server model (lay: the column layout, PreparedProp.Layout0); prep[n] = set of statements ("select","insert") prepared under OUR id
           base,                              \* [select |-> id, insert |-> id] learned from the setup
-          cols, mids,                        \* announced to the client: column count; set of metadata ids it may hold
+          cols, mids,                        \* announced to the client: column layout ("none" before the first); set of metadata ids it may hold
           op,                                \* current operation [op, node, pk, frames seen, pend, pages, failed]
           bad                                \* the current history was already reported
-vars == <<l, ext, skipopt, ver, prep, salt, base, cols, mids, op, bad>>
+vars == <<l, ext, skipopt, ver, lay, prep, salt, base, cols, mids, op, bad>>
 
 Idle == [op |-> "idle", node |-> 0, pk |-> 0, n |-> 0, pend |-> <<0, "none">>, pages |-> << >>, failed |-> 0, first |-> << >>]
-TraceInit == /\ l = 1 /\ ext = <<0, 0>> /\ skipopt = 0 /\ ver = 1 /\ prep = <<{}, {}>> /\ salt = <<0, 0>>
-             /\ base = [select |-> << >>, insert |-> << >>] /\ cols = 0 /\ mids = {} /\ op = Idle /\ bad = FALSE /\ TLCSet(1, 1)
+NoLayout == [extra |-> 99, bgen |-> 99]
+NoBase == [select |-> << >>, insert |-> << >>, insert2 |-> << >>]
+TraceInit == /\ l = 1 /\ ext = <<0, 0>> /\ skipopt = 0 /\ ver = 1 /\ lay = Layout0 /\ prep = <<{}, {}>> /\ salt = <<0, 0>>
+             /\ base = NoBase /\ cols = NoLayout /\ mids = {} /\ op = Idle /\ bad = FALSE /\ TLCSet(1, 1)
 
 Report(what) == IF bad THEN TRUE ELSE PrintT(<<"BAD", Rec[l].h, l, what>>)
 \* judge a condition: a failure marks the history bad (reported once), the walk continues
 Chk(c, what) == IF c THEN bad' = bad ELSE Report(what) /\ bad' = TRUE
 
-Reset(e) == /\ ext' = e.ext /\ skipopt' = e.skip /\ ver' = 1 /\ prep' = <<{}, {}>> /\ salt' = <<0, 0>>
-            /\ base' = [select |-> << >>, insert |-> << >>] /\ cols' = 0 /\ mids' = {} /\ op' = Idle /\ bad' = FALSE
+Reset(e) == /\ ext' = e.ext /\ skipopt' = e.skip /\ ver' = 1 /\ lay' = Layout0 /\ prep' = <<{}, {}>> /\ salt' = <<0, 0>>
+            /\ base' = NoBase /\ cols' = NoLayout /\ mids' = {} /\ op' = Idle /\ bad' = FALSE
 
 Event(e) ==
-  /\ CASE e.ev = "evict" -> prep' = [prep EXCEPT ![e.node + 1] = {}] /\ UNCHANGED <<ver, salt>>
-       [] e.ev = "alter" -> ver' = ver + 1 /\ UNCHANGED <<prep, salt>>
-       [] e.ev = "alter_evict" -> ver' = ver + 1 /\ prep' = <<{}, {}>> /\ UNCHANGED salt
-       [] e.ev = "idchange" -> salt' = [salt EXCEPT ![e.node + 1] = 1] /\ prep' = [prep EXCEPT ![e.node + 1] = {}] /\ UNCHANGED ver
+  /\ CASE e.ev = "evict" -> prep' = [prep EXCEPT ![e.node + 1] = {}] /\ UNCHANGED <<ver, lay, salt>>
+       [] e.ev = "alter" -> ver' = ver + 1 /\ lay' = [lay EXCEPT !.extra = @ + 1] /\ UNCHANGED <<prep, salt>>
+       [] e.ev = "alter_evict" -> ver' = ver + 1 /\ lay' = [lay EXCEPT !.extra = @ + 1] /\ prep' = <<{}, {}>> /\ UNCHANGED salt
+       [] e.ev = "rename_evict" -> ver' = ver + 1 /\ lay' = [lay EXCEPT !.bgen = ver + 1] /\ prep' = <<{}, {}>> /\ UNCHANGED salt
+       [] e.ev = "idchange" -> salt' = [salt EXCEPT ![e.node + 1] = 1] /\ prep' = [prep EXCEPT ![e.node + 1] = {}] /\ UNCHANGED <<ver, lay>>
   /\ UNCHANGED <<ext, skipopt, base, cols, mids, op, bad>>
 
 BeginOp(e) == /\ op' = [Idle EXCEPT !.op = e.op, !.node = e.node + 1, !.pk = e.pk]
-              /\ UNCHANGED <<ext, skipopt, ver, prep, salt, base, cols, mids, bad>>
+              /\ UNCHANGED <<ext, skipopt, ver, lay, prep, salt, base, cols, mids, bad>>
 
 \* ------------------------------------------------------------------ frames
 Prepare(f, n) ==
@@ -54,7 +57,7 @@ Prepare(f, n) ==
   /\ Chk(/\ f.reply = "prepared"
          /\ (known => (f.reply_id = base[s]) = ours)                                       \* the model's id
          /\ f.reply_mid = (IF ext[n] = 1 THEN Some(Mid(ver)) ELSE None)
-         /\ f.reply_ncols = (IF s = "select" THEN NCols(ver) ELSE 0)
+         /\ f.reply_ncols = (IF s = "select" THEN 2 + lay.extra ELSE 0)
          \* a PREPARE inside an execution only to re-prepare what that node reported unprepared
          /\ (op.op \in {"exec", "exec_paged", "batch"} => op.pend = <<n, s>>),
          "prepare frame")
@@ -62,13 +65,13 @@ Prepare(f, n) ==
   /\ prep' = IF ours \/ ~known THEN [prep EXCEPT ![n] = @ \cup {s}] ELSE prep
   \* what the statement's preparation announces: the columns; with the extension also the id
   /\ IF s = "select" /\ (ours \/ ~known)
-     THEN /\ cols' = NCols(ver)
+     THEN /\ cols' = lay
           /\ mids' = IF op.op = "idle" THEN mids \cup (IF ext[n] = 1 THEN {Mid(ver)} ELSE {<< >>})     \* setup: whichever answer the handle kept
                      ELSE IF ext[n] = 1 THEN {Mid(ver)} ELSE mids \cup {<< >>}      \* announced without an id: the old id or none may be presented (the server corrects either)
      ELSE UNCHANGED <<cols, mids>>
   /\ op' = IF op.op = "idle" THEN op
            ELSE [op EXCEPT !.n = @ + 1, !.pend = IF ours THEN <<n, "again">> ELSE <<0, "none">>, !.failed = IF ours THEN @ ELSE 1]
-  /\ UNCHANGED <<ext, skipopt, ver, salt>>
+  /\ UNCHANGED <<ext, skipopt, ver, lay, salt>>
 
 Execute(f, n) ==
   LET s == f.stmt
@@ -80,41 +83,42 @@ Execute(f, n) ==
          /\ f.values = <<PkBytes(op.pk)>>
          /\ (firstOfOp => n = op.node)
          /\ (ext[n] = 0 => f.rmid = None)
-         /\ (ext[n] = 1 => f.rmid.some = 1 /\ (f.rmid.v \in mids \/ (f.rmid.v = << >> /\ (mids \subseteq {<< >>} \/ cols = 0))))
+         /\ (ext[n] = 1 => f.rmid.some = 1 /\ (f.rmid.v \in mids \/ (f.rmid.v = << >> /\ mids \subseteq {<< >>})))
          /\ (op.pend[2] # "none" => op.pend = <<n, "again">> /\ f.paging = op.first.paging)     \* the same request again, after the re-preparation
          /\ f.reply = reply
          /\ (reply = "unprepared" => f.reply_id = f.id)
-         /\ (reply = "rows_meta_newid" => f.reply_mid = Some(Mid(ver)) /\ f.reply_ncols = NCols(ver)),
+         /\ (reply = "rows_meta_newid" => f.reply_mid = Some(Mid(ver)) /\ f.reply_ncols = 2 + lay.extra),
          "execute frame")
-  /\ IF reply = "rows_meta_newid" THEN cols' = NCols(ver) /\ mids' = {Mid(ver)} ELSE UNCHANGED <<cols, mids>>
+  /\ IF reply = "rows_meta_newid" THEN cols' = lay /\ mids' = {Mid(ver)} ELSE UNCHANGED <<cols, mids>>
   /\ op' = [op EXCEPT !.n = @ + 1,
                       !.pend = IF reply = "unprepared" THEN <<n, s>> ELSE <<0, "none">>,
                       !.first = IF op.pend[2] = "none" THEN [paging |-> f.paging] ELSE @,
                       \* a page of rows: [paging state it answers, columns it must be decoded with]
-                      !.pages = IF reply \in {"rows_meta", "rows_meta_newid"} THEN Append(@, [paging |-> f.paging, ncols |-> NCols(ver), true |-> NCols(ver)])
-                                ELSE IF reply = "rows_nometa" THEN Append(@, [paging |-> f.paging, ncols |-> cols, true |-> NCols(ver)])
+                      !.pages = IF reply \in {"rows_meta", "rows_meta_newid"} THEN Append(@, [paging |-> f.paging, ncols |-> lay, true |-> lay])
+                                ELSE IF reply = "rows_nometa" THEN Append(@, [paging |-> f.paging, ncols |-> cols, true |-> lay])
                                 ELSE @]
-  /\ UNCHANGED <<ext, skipopt, ver, prep, salt, base>>
+  /\ UNCHANGED <<ext, skipopt, ver, lay, prep, salt, base>>
 
 Batch(f, n) ==
-  LET reply == IF "insert" \in prep[n] THEN "void" ELSE "unprepared" IN
+  LET missing == IF "insert" \notin prep[n] THEN "insert" ELSE IF "insert2" \notin prep[n] THEN "insert2" ELSE "none"
+      reply == IF missing = "none" THEN "void" ELSE "unprepared" IN
   /\ Chk(/\ op.op = "batch" /\ op.failed = 0
-         /\ f.id = <<base.insert, base.insert>>
+         /\ f.id = <<base.insert, base.insert2>>
          /\ f.values = <<PkBytes(op.pk), PkBytes(op.pk + 1)>>
          /\ (op.n = 0 => n = op.node)
          /\ (op.pend[2] # "none" => op.pend = <<n, "again">>)
-         /\ f.reply = reply /\ (reply = "unprepared" => f.reply_id = base.insert),
+         /\ f.reply = reply /\ (reply = "unprepared" => f.reply_id = base[missing]),
          "batch frame")
-  /\ op' = [op EXCEPT !.n = @ + 1, !.pend = IF reply = "unprepared" THEN <<n, "insert">> ELSE <<0, "none">>,
-                      !.pages = IF reply = "void" THEN Append(@, [paging |-> None, ncols |-> 0, true |-> 0]) ELSE @]
-  /\ UNCHANGED <<ext, skipopt, ver, prep, salt, base, cols, mids>>
+  /\ op' = [op EXCEPT !.n = @ + 1, !.pend = IF reply = "unprepared" THEN <<n, missing>> ELSE <<0, "none">>,
+                      !.pages = IF reply = "void" THEN Append(@, [paging |-> None, ncols |-> lay, true |-> lay]) ELSE @]
+  /\ UNCHANGED <<ext, skipopt, ver, lay, prep, salt, base, cols, mids>>
 
 Frame(f) == LET n == f.node + 1 IN
   CASE f.opcode = 9 -> Prepare(f, n) [] f.opcode = 10 -> Execute(f, n) [] f.opcode = 13 -> Batch(f, n)
 
 \* ------------------------------------------------------------------ results
-PageRows(p, pk) == IF op.op = "exec" THEN RowsOf(ver, pk)
-                   ELSE IF p.paging = None THEN <<RowOf(ver, pk, 0)>> ELSE <<RowOf(ver, pk, 1)>>
+PageRows(p, pk) == IF op.op = "exec" THEN RowsOf(ver, lay, pk)
+                   ELSE IF p.paging = None THEN <<RowOf(ver, lay, pk, 0)>> ELSE <<RowOf(ver, lay, pk, 1)>>
 RECURSIVE Cat(_)
 Cat(ss) == IF ss = << >> THEN << >> ELSE Head(ss) \o Cat(Tail(ss))
 Result(r) ==
@@ -124,13 +128,13 @@ Result(r) ==
                      /\ Len(op.pages) = (IF op.op = "exec" THEN 1 ELSE 2)
                      \* decoded with the metadata of the frame, or with the one announced to the client: both must be the true one
                      /\ \A i \in 1..Len(op.pages) : op.pages[i].ncols = op.pages[i].true
-                     /\ r.cols = ColNames(NCols(ver))
+                     /\ r.cols = ColNames(lay)
                      /\ r.rows = Cat([i \in 1..Len(op.pages) |-> PageRows(op.pages[i], op.pk)])
             [] op.op = "batch" -> IF op.failed = 1 THEN r.ok = 0 /\ r.kind = "reprepared_id_changed" ELSE r.ok = 1 /\ Len(op.pages) = 1
             [] op.op = "prepare" -> r.ok = (IF salt = <<0, 0>> THEN 1 ELSE 0),
          "result")
   /\ op' = Idle
-  /\ UNCHANGED <<ext, skipopt, ver, prep, salt, base, cols, mids>>
+  /\ UNCHANGED <<ext, skipopt, ver, lay, prep, salt, base, cols, mids>>
 
 Step(e) == CASE e.t = "reset" -> Reset(e) [] e.t = "ev" -> Event(e) [] e.t = "op" -> BeginOp(e)
              [] e.t = "frame" -> Frame(e) [] e.t = "result" -> Result(e)
